@@ -290,6 +290,101 @@ def h_orphans(nperf: int, present: int, a0: int, a1: int, b0: int, b1: int, nvol
     return 1
 
 
+# ------------------------------------------------------------------ C02.image: whole S-770 images from the independent writer through the real export
+def _words(n, seed):
+    import struct
+    return b"".join(struct.pack("<h", ((i * 7 + seed * 1000) % 60000) - 30000) for i in range(n))
+
+
+FREQ = {0: 48000, 1: 44100, 2: 24000, 3: 22050, 4: 30000, 5: 15000}
+
+
+def expected_pcm(smp):
+    """words start..endpoint(mode) of the sample, time-reversed for the two reverse modes (reference, from the statement)"""
+    w = smp["words"]
+    n_all = len(w) // 2
+    mode = smp.get("mode", 0)
+    start = smp.get("start", 0)
+    endp = smp.get("release_end", n_all - 1) if mode in (1, 3) else smp.get("sustain_end", n_all - 1)
+    pcm = w[2 * start:2 * (endp + 1)]
+    if mode in (5, 6):
+        pcm = b"".join(pcm[i:i + 2] for i in range(len(pcm) - 2, -2, -2))
+    return pcm
+
+
+def h_image(shape: int, mode: int, freq: int, top: int, perm: int, fill: int, ver: int) -> int:
+    """
+    pre: 0 <= shape <= 3 and 0 <= mode <= 6 and 0 <= freq <= 5 and 0 <= top <= 2 and 0 <= perm <= 2 and 0 <= fill <= 1 and 1 <= ver <= 2
+    post: _ == 1
+    """
+    CNT[0] += 1
+    import io
+    import struct
+    from vf.util import untraced
+    shape, mode, freq, top, perm, fill, ver = conc(shape, 0, 3), conc(mode, 0, 6), conc(freq, 0, 5), conc(top, 0, 2), conc(perm, 0, 2), conc(fill, 0, 1), conc(ver, 1, 2)
+    with untraced():
+        from vf import rolandw
+        from vf.props import c16, c01
+        import smpl_extract.actions as actions
+        nw = 2 * 4608 if fill else 6000                      # exactly two clusters, or ending inside the second one
+        s1 = dict(name="Smp1", words=_words(nw, 2), chain=[[0, 1], [1, 0], [0, 1]][perm][:2] + ([2] if top else []) if False else None,
+                  cluster_top=top, mode=mode, freq_code=freq, start=3, sustain_start=5, sustain_end=nw - 7, release_start=9, release_end=nw - 2)
+        nclus = 2 + top
+        s1["chain"] = {0: list(range(nclus)), 1: list(reversed(range(nclus))), 2: [nclus - 1] + list(range(nclus - 1))}[perm]
+        s0 = dict(name="Smp0", words=_words(500, 1), freq_code=1)
+        s2 = dict(name="Smp2", words=_words(300, 3), mode=2, freq_code=3)
+        s3 = dict(name="Unused", words=_words(40, 4))        # referenced by nobody: must not be exported
+        if shape == 0:      # one volume, one performance
+            vols, perfs = [("VolA", [0])], [("Perf0", [0])]
+        elif shape == 1:    # shared performance + orphan performance
+            vols, perfs = [("VolA", [0, 1]), ("VolB", [0])], [("Perf0", [0]), ("Perf1", [1]), ("Perf2", [1])]
+        elif shape == 2:    # no volumes at all: every performance is listed under the pseudo-volume
+            vols, perfs = [], [("Perf0", [0]), ("Perf1", [1])]
+        else:               # orphan only through sharing (the C02b situation)
+            vols, perfs = [("VolA", [0, 1]), ("VolB", [0])], [("Perf0", [0, 1]), ("Perf1", [0]), ("Perf2", [1])]
+        model = {"volumes": vols, "performances": perfs, "patches": [("Patch0", [0]), ("Patch1", [1])],
+                 "partials": [("Part0", [0, 1, 0]), ("Part1", [2, 2])], "samples": [s0, s1, s2, s3], "fat_version": ver}
+        img = rolandw.build(model)
+        try:
+            image = actions.determine_image_type(io.BufferedReader(io.BytesIO(img)))
+            res = c16._do(image, ("export", None))
+        except Exception:
+            return 0
+        if type(image).__name__ != "RolandS7xxImage":
+            return 0
+        got = dict(res[1])
+        smp = model["samples"]
+        patch_samples = {0: [0, 1], 1: [2]}                 # patch -> partial -> samples, each distinct sample once (no sample shared by two
+        #                                                     patches of one performance: whether that is one file or two is not claimed)
+        exp = {}
+        referenced = set()
+        for vname, plist in vols:
+            for pi in plist:
+                referenced.add(pi)
+                for pa in perfs[pi][1]:
+                    for si in patch_samples[pa]:
+                        exp["%s/%s/%s.wav" % (vname, perfs[pi][0], smp[si]["name"])] = si
+        orphans = [i for i in range(len(perfs)) if i not in referenced]
+        pseudo = "All Performances" if not vols else "_Orphan_perf"
+        for pi in orphans:
+            for pa in perfs[pi][1]:
+                for si in patch_samples[pa]:
+                    exp["%s/%s/%s.wav" % (pseudo, perfs[pi][0], smp[si]["name"])] = si
+        if sorted(got) != sorted("out/" + k for k in exp):
+            return 0
+        for k, si in exp.items():
+            try:
+                c = c01._riff_chunks(got["out/" + k])
+            except ValueError:
+                return 0
+            af, nch, sr, br, ba, bits = struct.unpack("<HHIIHH", c[b"fmt "])
+            if (af, nch, bits, sr) != (1, 1, 16, FREQ[smp[si].get("freq_code", 0)]):
+                return 0
+            if c[b"data"] != expected_pcm(smp[si]):
+                return 0
+    return 1
+
+
 def h_rate(code: int) -> int:
     """
     pre: 0 <= code <= 15
@@ -338,7 +433,7 @@ META = {
                     "the data-area window starts at 0x2b1000 (virtual cluster 0) as in the format notes; cluster = 9216 bytes",
                     "S-770 area layout table transcribed independently in the harness",
                     "patch->partial->sample pointer chasing, orphan-performance discovery and FAT version-2 link adjustment run inside construct "
-                    "Lazy/Pointer on a >= 2.8 MB image: glue, trusted, not reachable symbolically"],
+                    "Lazy/Pointer: not reachable symbolically; exercised end to end by C02.image on solver-chosen concrete S-770 images"],
     "trusted": ["CPython 3.12", "z3 5.1", "CrossHair 0.0.110", "construct 2.10", "AbsFile/Spans", "NpShim"],
     "out_of_claim": ["chains longer than 2 clusters in C02.mode (3..4-entry tables in C02.fat)", "which performances reference which samples (directory glue)",
                      "stereo Roland samples (sample_mode 1)"],
@@ -373,6 +468,15 @@ def obligations(tier, seed):
         obs.append(ob(f"C02.addr/{KINDS[kind]}", "h_addr", [f"kind == {kind}"], "record index", "0..70000", []))
     for n0 in range(5):
         obs.append(ob(f"C02.collect/n0={n0}", "h_collect", [f"n0 == {n0}"], "sample indices referenced by two partials", f"{n0} + <=2 references over 3 indices", ["SampleFileAdapter recorder"]))
+    for shape in range(4):
+        for mode in range(7):
+            if q and (shape, mode) not in ((0, 0), (1, 5), (2, 1), (3, 6), (1, 3), (0, 2), (0, 4)):
+                continue
+            obs.append(ob(f"C02.image/shape={('single', 'shared+orphan', 'no-volumes', 'orphan-by-sharing')[shape]}/mode={mode}", "h_image",
+                          [f"shape == {shape}", f"mode == {mode}"] + (["freq <= 1 and ver == 1 + (perm % 2)"] if q else []),
+                          "sampling-frequency code, cluster_top, chain permutation, exact cluster fill, FAT version",
+                          "whole S-770 images (2.9 MB) from the independent writer through determine_image_type + export; concrete per path",
+                          ["independent S-770 writer", "in-memory export"]))
     for nvol in (0, 1, 2):
         obs.append(ob(f"C02.orphans/volumes={nvol}", "h_orphans", [f"nvol == {nvol}"], "which directory slots hold performances, which performances each volume references",
                       "<= 3 performances, <= 2 volumes x <= 2 references (shared and orphaned)", ["stub volume list", "synthetic performance directory area"]))
